@@ -134,7 +134,10 @@ def check_C14(chk, tier, seed):
                 chk.violation(f"{k} lookup returned {g}, the most recent definition for exactly that key is {w}",
                               dict(case=c, history=short(lines[i - 1][1], 6000), impl=short(im, 3000)))
                 break
-        if ok and im != mo:
+        # a name carried by several live definitions: the property asks for *a* live definition with that name, which one is
+        # open (checked above); the correspondence therefore compares those answers as "some live carrier"
+        canon = lambda toks: [("live-carrier" if k == "name" and len(w) > 1 and g2 in w else g2) for (k, w), g2 in zip(want, toks)]
+        if ok and canon(got) != canon(mo.split()[1:]):
             chk.corr_break("lookup observation differs from the model", dict(case=c, history=short(lines[i - 1][1], 6000), impl=short(im, 2000), model=short(mo, 2000)))
         if i % max(1, len(lines) // 6) == 0:
             chk.sample(dict(case=c, impl=short(im, 200), P=ok))
@@ -180,8 +183,8 @@ def check_C15(chk, tier, seed):
     k = 0
     spellings = [(TY_XML_NAME[t], t) for t in TYS[1:]] + [(s, "unk") for s in ("Unsigned16", "utf8string", "UTF8String ", "", "Integer", "IPAddress", "QoSFilterRule", "Grouped ", "grouped")]
     for tyname, ty in spellings:
-        for scope in (None, 10415, 77):
-            for wire_v in (None, 10415):
+        for scope in (None, 10415, 77, 0, 0xffffffff):
+            for wire_v in (None, 10415, 0):
                 did = f"t{k}"
                 k += 1
                 apps = [dict(name=b"GenApp", id=4, cmds=[], avps=[dict(code=5000, vendor=scope, name=b"Probe", tyname=tyname.encode(), must=None),
@@ -269,7 +272,7 @@ def check_C15(chk, tier, seed):
         if i % max(1, len(cases) // 6) == 0:
             chk.sample(dict(case=c, impl=short(im, 160), P=ok))
     chk.exhaustive = True
-    chk.rule = ("exhaustive: 16 documented type names + 9 unknown spellings x entry scope {vendor-less, vendor 10415, vendor 77} x wire AVP {no vendor, vendor 10415} "
+    chk.rule = ("exhaustive: 16 documented type names + 9 unknown spellings x entry scope {vendor-less, vendor 10415, vendor 77, vendor 0, vendor 2^32-1} x wire AVP {no vendor, vendor 10415, vendor 0} "
                 "(one-AVP frames); every definition of the built-in dictionary and of dict/3gpp-ro-rf.xml read independently with xml.etree: looked up, and "
                 "(recognised types) used to build by name, encode, decode a value of its declared type")
 
@@ -299,6 +302,12 @@ def check_C16(chk, tier, seed):
             v = ("L", SAMPLE_LEAF.get(ty, SAMPLE_LEAF["u32"])) if ty != "grp" else ("GN", [])
             cases.append(hist_line(did, ("NEW", 272, 4, 0x80, 1, 2), [("ADDNAME", nm, v)]))
             expect.append(("byname", ds, v, did))
+    # names that were declared once but whose key has since been re-declared under another name: no live definition carries them
+    for did in ("g", "x"):
+        live_names = {d["name"] for d in eng.dicts[did].live()}
+        for nm in sorted({d["name"] for d in eng.dicts[did].defs} - live_names):
+            cases.append(hist_line(did, ("NEW", 272, 4, 0x80, 1, 2), [("ADDNAME", nm, ("L", SAMPLE_LEAF["u32"]))]))
+            expect.append(("stale", hist_line(did, ("NEW", 272, 4, 0x80, 1, 2), []), 0, did))
     # unknown names interleaved in histories: the failed call must change nothing
     n = 600 if tier == "quick" else 30000
     for i in range(n):
@@ -369,10 +378,14 @@ def check_C16(chk, tier, seed):
                 ok = False
                 chk.violation("a failed add_avp_by_name changed the message (AVP list, reported length or encoding)",
                               dict(case=c, impl=short(im, 2000), without_the_failed_call=short(ref, 2000)))
-        if ok and im != mobs:
+        ambiguous = ex[0] == "byname" and len(ex[1]) > 1      # several live carriers of the name: which one is open (checked above)
+        if ambiguous:
+            chk.count("name:ambiguous")
+        if ok and im != mobs and not ambiguous:
             chk.corr_break("observation differs from the model", dict(case=c, impl=short(im, 2000), model=short(mobs, 2000)))
         if i % max(1, len(cases) // 6) == 0:
             chk.sample(dict(case=c, impl=short(im, 160), P=ok))
     chk.rule = ("exhaustive over every name of the built-in, 3GPP and two generated dictionaries: built by name vs built from the explicit numbers of a live "
-                "definition with that name (observation incl. encoding must be identical); plus generated histories with one unknown-name call inserted at a "
+                "definition with that name (observation incl. encoding must be identical); names whose key was re-declared under another name (no longer live) "
+                "must be refused; plus generated histories with one unknown-name call inserted at a "
                 "random position, compared with the same history without it")
